@@ -3,7 +3,8 @@ import steps_C16
 
 ID = "C16"
 PROP = {
-    "modules": ["Gnmi.Props.C16", "Gnmi.Props.C16Mgr", "Gnmi.Props.C16Prog"],
+    "modules": ["Gnmi.Props.C16", "Gnmi.Props.C16Mgr", "Gnmi.Props.C16Prog", "Gnmi.Props.C13Hops",
+                "Gnmi.GenProps.ManagerCreateConn"],
     "extra": [steps_C16.race_step],
     "theorems": ["Gnmi.C16." + t for t in [
         "inv_init", "inv_step", "inv_reach", "no_panic", "map_wellformed",
@@ -28,13 +29,21 @@ PROP = {
         "remove_releases", "remove_returns_released", "removed_never_again",
         "release_once", "exec_ledger",
         "dial_succeeds_after_cancel", "dial_succeeds_after_cancel_released"]] + [
-        "Gnmi.Manager.Reach.ghost", "Gnmi.Manager.GReach.reach", "Gnmi.Manager.applyMove_sound"],
+        "Gnmi.Manager.Reach.ghost", "Gnmi.Manager.GReach.reach", "Gnmi.Manager.applyMove_sound"] + ["Gnmi.C13Hops." + t for t in [
+        # the holder's side for multi-hop targets: createConn's loop acquires exactly what `dialOk` acquires
+        "createConn_ledger", "createConn_all_fail", "createConn_success_calls", "hstep_refines", "HReach.greach",
+        "hops_acquire_only_on_success", "hops_ledger", "hops_held_le_one", "hops_released_when_idle", "hops_release_once",
+        "hops_no_call_after_success"]] + [
+        "Gnmi.GenProps.ManagerCreateConn." + t for t in ["tie_loop", "tie_createConn", "tie_defer"]],
     "components": [
         {"c": "cn", "quick": {"n": 1500, "exhaustive": True}, "thorough": {"n": 12000, "exhaustive": True, "seeds": 4}},
         # manager.Manager as the holder: the mg scenarios with the emphasis on the connection side (dial injections,
         # the real connection.Manager underneath in `runc` lines); one line is a whole scenario
         {"c": "mg", "label": "mg-conn", "gen_args": ["-profile", "conn"], "min_len": 3,
          "quick": {"n": 60, "exhaustive": True}, "thorough": {"n": 600, "exhaustive": True, "seeds": 3}},
+        # createConn's next-hop loop through its seam (per call: result, deadline, whose done comes back) and whole
+        # sessions with Config.Timeout on the real connection.Manager (ledger; ends empty, every connection shut)
+        {"c": "mh", "label": "mh-conn", "quick": {"n": 30, "exhaustive": False}, "thorough": {"n": 300, "exhaustive": True, "seeds": 2}},
     ],
     # there is no separate abstract spec: the LTS *is* what the theorems are about; the driver
     # returns the model observation in both columns, so every divergence is a failing input
@@ -80,7 +89,11 @@ PROP = {
                       "released_when_idle, remove_releases, release_once, for every fault script and schedule, including a dial that "
                       "succeeds after its context was cancelled), tied to the code by the mg correspondence, which keeps a ledger of "
                       "every successful Connection return and every done call of the real manager.Manager, also with the real "
-                      "connection.Manager underneath (ends empty, every connection Shutdown). "
+                      "connection.Manager underneath (ends empty, every connection Shutdown). Multi-hop targets (Props/C13Hops.lean): "
+                      "createConn's loop over the next hops acquires exactly one handle iff it returns a connection (createConn_ledger), the "
+                      "hop-level LTS refines the manager LTS with the same ledger (hstep_refines, hops_ledger), so held_le_one, "
+                      "released_when_idle and release_once hold whatever the number of hops and the order they are tried in; tied to the "
+                      "code by the mh correspondence (createConn through a seam; sessions with Config.Timeout set). "
                       "Progress in run form (Props/C16Prog.lean): the dial goroutine of a not yet ready object always has an enabled step "
                       "(dial_enabled), each of its steps decreases a variant <= 4 (dial_rank_decreases), no other thread changes its pc or "
                       "disables it (others_keep_dial, dial_step_persists), so along every schedule the object is ready after 4 dial steps "
